@@ -281,6 +281,45 @@ def run(ctx):
                                 "data": p["data"], "errors": p["errors"], "invocations": len(r["log"])})
         per_cfg[cfg] = {"cases": len(lines), "corresponding": ok}
 
+    # argument-coercion errors carry the field's own response path (both template flavours: the theorem
+    # argument_errors_carry_the_field_path is over the regenerated facts; this is the same statement on the implementation)
+    for cfg in ("execboom:base", "execboom:follow_funcsyn_wl2"):
+        b = built.get(cfg)
+        if b is None or isinstance(b, Exception):
+            continue
+        acases = []
+        for k, (q, vj, ov, want) in enumerate([
+                ('{ echo(b: "ERR") ok }', None, {}, ["echo/b"]),
+                ('{ e: echo(b: "ERR") ok }', None, {}, ["e/b"]),
+                ('{ t { e: echo(b: "ERR") s } }', None, {"t": {"kind": "value"}}, ["t/e/b"]),
+                ('{ t { kid { echoNN(b: "ERR") } s } }', None, {"t": {"kind": "value"}, "t/kid": {"kind": "value"}}, ["t/kid/echoNN/b"]),
+                ('query($v: [Boom!]) { ts { echo(bs: $v) } }', '{"v":["x","ERR"]}', {"ts": {"kind": "value", "len": 2}},
+                 ["ts/0/echo/bs/1", "ts/1/echo/bs/1"]),
+                ('query($v: Boom) { a: echo(b: $v) t { b: echo(b: $v) } }', '{"v":"ERR"}', {"t": {"kind": "value"}}, ["a/b", "t/b/b"]),
+                ('{ echo(bs: ["ok", "ERR", "ERR"]) }', None, {}, ["echo/bs/1"])]):
+            c = {"id": "argpath-%d" % k, "query": q, "plan": {"seed": ctx.seed, "rates": {}, "overrides": ov}}
+            if vj:
+                c["varsJSON"] = vj
+            acases.append((c, want))
+        rc, so, se = vf.sh([b, "-mode", "run"], inp="\n".join(json.dumps(c) for c, _ in acases) + "\n", timeout=300)
+        res = [json.loads(l) for l in so.split("\n") if l.strip()] if rc == 0 else []
+        okc = 0
+        for (c, want), r in zip(acases, res):
+            total += 1
+            dist["argument-coercion-error"] += 1
+            got = sorted(e["path"] for p in r.get("payloads", []) for e in p["errors"])
+            if r.get("gateErrors") or r.get("crash") or r.get("hung") or got != sorted(want):
+                ctx.violation({"kind": "argument-error-path", "config": cfg, "query": c["query"], "variables": c.get("varsJSON"),
+                               "expected_error_paths": sorted(want), "impl_error_paths": got, "impl": r.get("payloads"),
+                               "gateErrors": r.get("gateErrors"), "shape": {"why": "argument-error-path"},
+                               "replay": "echo '<case json>' | <generated server %s> -mode run" % cfg})
+            else:
+                okc += 1
+        if rc != 0 or len(res) != len(acases):
+            ctx.violation({"kind": "crash", "config": cfg, "where": "argument-error cases", "stderr": se[-2000:],
+                           "shape": {"crash": True, "where": "argument-error"}})
+        per_cfg[cfg + "/argument-error-paths"] = {"cases": len(acases), "as_stated": okc}
+
     for cfg, r, mj, why in divs:
         if len(ctx.violations) >= 20:
             break
